@@ -373,7 +373,9 @@ def judge_c03(scn, run) -> Tuple[List[Viol], Dict[str, int]]:
                 # session some EARLIER login handed out (that would be a leak between operations)
                 cnt(c, "grey:login-reply-without-session")
                 whose = seen_sessions.get(bytes(u[8:12]))
-                if whose is not None and (whose[0] != cl.idx or whose[1] != op.uid):
+                # (only when the header is intact - terminator where it belongs - i.e. a whole 4-byte session was
+                # put in; with the short session of the unchanged code every later byte is shifted)
+                if whose is not None and u[38:40] == b"\xf0\xfe" and (whose[0] != cl.idx or whose[1] != op.uid):
                     v.append(("C03/stale-session-after-short-login/%s" % op.kind,
                               "%s: this operation's login reply had only %d bytes, yet frame %d carries session %s "
                               "that was issued to client %d op %s" % (op.kind, len(lr or b""), i, u[8:12].hex(), whose[0], whose[1])))
